@@ -564,7 +564,7 @@ func cases(tier string, seed int64) []fw.Case {
 	var cs []fw.Case
 	nh, ops := 40, 3500
 	if tier == "thorough" {
-		nh, ops = 640, 12000
+		nh, ops = 320, 8000
 	}
 	cs = append(cs, fw.MkCase("flow", seed*7919+1, params{Mode: "flow"}))
 	for v := 1; v <= 4; v++ {
